@@ -313,6 +313,99 @@ theorem write_open (hcl : TextBlind w.ctl E) (hwf : WfChunkWith w.tbl fs = true)
       rw [hls, hpc]
       exact hl
 
+/-- the two streams before `end`: the whole stream still holds `d` bytes (the open text lexeme) that the
+split stream has consumed -/
+def EndRel (w : World γ) (E : γ → γ → Prop) (fs : FlagMap) (inpW : Bytes) (d : Nat) (S : Stream γ)
+    (pw : Parser (Disp γ)) (dw : Disp γ) : Prop :=
+  PRelM w.tbl fs inpW d d 0 S.parser (S.parser.machine false) pw (pw.machine false) ∧
+  DK w.ctl E [] inpW d d S.disp dw ∧ S.disp.rcs = 0 ∧
+  (0 < d → DLoc S.disp S.parser.x.prevConsumed (lexStart (S.parser.machine false).r)
+    (S.parser.machine false).c.lastTextType)
+
+/-- **The last `write` of the split run**: its input ends where the whole input ends. -/
+theorem write_last (hcl : TextBlind w.ctl E) (hwf : WfChunkWith w.tbl fs = true) {inpW : Bytes} {pw0 : Parser (Disp γ)}
+    {mw0 : M (Disp γ)} {S : Stream γ} {written c : Bytes} (hinv : Inv w E fs inpW pw0 mw0 S written)
+    (hdoc : inpW = written ++ c) :
+    Unclean (S.write w c).2 ∨
+    ∃ pwF rwF, PRunsM w.env inpW false pw0 mw0 pwF rwF ∧
+      ((∃ e, rwF = .error e ∧ (S.write w c).2 = .error e) ∨
+       (∃ c' d' mid, rwF = .ok c' ∧ (S.write w c).2 = .ok () ∧
+          inpW.drop c' = mid ++ (S.write w c).1.pending ∧ mid.length = d' ∧ c' + d' ≤ inpW.length ∧
+          PRelM w.tbl fs inpW d' d' 0 (S.write w c).1.parser ((S.write w c).1.parser.machine false) pwF (pwF.machine false) ∧
+          DK w.ctl E [] inpW (c' + d') d' (S.write w c).1.disp pwF.x.sink ∧ (S.write w c).1.disp.rcs = 0 ∧
+          (0 < d' → DLoc (S.write w c).1.disp (S.write w c).1.parser.x.prevConsumed
+            (lexStart ((S.write w c).1.parser.machine false).r) ((S.write w c).1.parser.machine false).c.lastTextType))) := by
+  obtain ⟨δ, d, skip, pwk, mw1, pre, h1, h2, hcont, hprel, hK, hrcs, hloc⟩ := hinv
+  have hdoc' : inpW = pre ++ S.pending ++ c ++ [] := by rw [hdoc, h1]; simp
+  have F : Frame (S.pending ++ c) inpW δ := by
+    rw [hdoc', ← h2]
+    exact frame_of_doc
+  have hclosed : Closed (S.pending ++ c) inpW δ := by
+    unfold Closed
+    rw [hdoc', ← h2]; simp only [List.length_append, List.length_nil]; omega
+  rcases write_cases (w := w) S c with hun | ⟨ps', rs, hpr, hcase⟩
+  · exact Or.inl hun
+  have hsink : (S.parser.machine false).x.sink = S.disp := by rw [machine_x]; rfl
+  have hK' : DK w.ctl E (S.pending ++ c) inpW δ d (S.parser.machine false).x.sink mw1.x.sink := by
+    rw [hsink]; exact hK.congr_inpS (by rw [hrcs]; exact Nat.zero_le _)
+  have hloc' : 0 < d → DLoc (S.parser.machine false).x.sink (S.parser.machine false).x.prevConsumed
+      (lexStart (S.parser.machine false).r) (S.parser.machine false).c.lastTextType := by
+    intro hd; rw [hsink, machine_x]; exact hloc hd
+  rcases plock (env := w.env) F hclosed (dispOps_sim F hcl) hwf false hpr hprel (machine_isLast _ _) hK' hloc' with
+    ⟨m, hm⟩ | ⟨pw', rw', hpw, hres⟩
+  · subst hm
+    rcases hcase with ⟨e, he, hres⟩ | ⟨c0, hc0, _⟩
+    · cases he; exact Or.inl (Or.inl ⟨m, hres⟩)
+    · cases hc0
+  rcases hcase with ⟨e, he, hwres⟩ | ⟨c0, hc0, hrest⟩
+  · subst he
+    cases rw' with
+    | ok c' => exact hres.elim
+    | error e' =>
+      have : e' = e := hres
+      subst this
+      exact Or.inr ⟨pw', _, hcont _ _ hpw, Or.inl ⟨e', rfl, hwres⟩⟩
+  · subst hc0
+    cases rw' with
+    | error e' => exact hres.elim
+    | ok c' =>
+      obtain ⟨d', e1, hKb, hp', _, hlb⟩ := hres
+      obtain ⟨hls, hlocb⟩ := hlb rfl
+      rcases hrest hKb.emT.1 with hun | ⟨ds', hfl, hok, hpend, hpars⟩
+      · exact Or.inl hun
+      have hlocS : 0 < d' → ps'.x.sink.flags.text = true → ps'.x.sink.rcs = c0 := by
+        intro hd hft
+        obtain ⟨pc0, _, hl⟩ := hlocb hd
+        exact (hl hft).1
+      obtain ⟨hKf, hsame, hr0, hle⟩ := DK.flushS (inpS' := []) F hKb hlocS hfl
+      have hlen : inpW.length = (S.pending ++ c).length + δ := hclosed
+      have hdisp : (S.write w c).1.disp = ds' := by
+        show (S.write w c).1.parser.x.sink = ds'
+        rw [hpars]; rfl
+      refine Or.inr ⟨pw', _, hcont _ _ hpw, Or.inr ⟨c', d', (inpW.drop c').take d', rfl, hok, ?_, ?_, by omega, ?_, ?_, ?_, ?_⟩⟩
+      · -- the rest of the whole input
+        rw [hpend]
+        have hS : (S.pending ++ c).drop c0 = inpW.drop (c' + d') := by
+          rw [e1, hdoc']
+          simp only [List.append_nil, List.append_assoc]
+          rw [Nat.add_comm c0 δ, ← h2, ← List.drop_drop, List.drop_left]
+        rw [hS, ← List.drop_drop, List.take_append_drop]
+      · rw [List.length_take, List.length_drop]; omega
+      · rw [hpars]
+        have := hp' rfl
+        have := this.setSinkS ds'
+        rw [setSink_machine]
+        exact this
+      · rw [hdisp, e1, Nat.add_comm c0 δ]; exact hKf
+      · rw [hdisp]; exact hr0
+      · intro hd
+        rw [hdisp, hpars, setSink_machine]
+        obtain ⟨pc0, hpc, hl⟩ := hlocb hd
+        have hl' := hl.flushS hsame hr0
+        show DLoc ds' ps'.x.prevConsumed (lexStart (ps'.machine false).r) (ps'.machine false).c.lastTextType
+        rw [hls, hpc]
+        exact hl'
+
 end
 
 end LolHtml.Model.Chunk
